@@ -28,6 +28,7 @@ import SJ.Drv.C10Raw
 import SJ.Drv.C20Any
 import SJ.Drv.C04Sci
 import SJ.Drv.Keys
+import SJ.Drv.C02
 /-!
 `sjdriver` — reads case lines `op args… => impl-observation` on stdin, runs the Lean model and the
 executable specification on each, prints
@@ -69,6 +70,7 @@ def allHandlers : List (String × Handler) :=
     C10Raw.handlers,
     C20Any.handlers,
     Keys.handlers,
+    C02.handlers,
   ]
 
 def findHandler (op : String) : Option Handler := (allHandlers.find? (·.1 == op)).map (·.2)
